@@ -416,6 +416,30 @@ def run_c13(tier, seed, wd, info, verdict):
             scs.append(dict(a, id=sid, account="DW/f%d" % k, faults=[dict(a["faults"][0]), dict(b["faults"][0])]))
             meta[sid] = scs[-1]
     by = run_parallel(scs, wd, "c13")
+    # THE REAL TRANSPORT under a faulty participant: two instances are real dirk binaries, the third (highest identifier: it only ever
+    # answers contribution requests) is served by the harness over real gRPC / TLS with the repository's own service, receiver handler and
+    # process service, its contribution REPLIES tampered with.  The binaries' own services/sender/grpc carries the faulty reply.
+    gkinds = ["vvec-long-identity", "vvec-long-key", "vvec-long-poly", "vvec-short", "vvec-short-poly", "vvec-double", "vvec-empty", "vvec-alter", "share-replaced", "share-otherid"]
+    gscs = []
+    for gi, gk in enumerate(gkinds if tier != "quick" else gkinds[:3] + [gkinds[3 + seed % 7], gkinds[3 + (seed + 3) % 7]]):
+        k += 1
+        gscs.append(dict(id="C13-grpc-%d" % k, ids=[1, 2, 3], n=3, t=2, initiator=1 + gi % 2, account="DW/gf%d" % k, generate=True, probe=False, faulty_grpc=True,
+                         faults=[dict(site="contribute.rep", **{"from": 3, "to": 0, "kind": gk})]))
+    gchunks = [gscs[i::4] for i in range(4) if gscs[i::4]]
+    with ThreadPoolExecutor(max_workers=4) as ex:
+        gouts = list(ex.map(lambda a: run_dkgdrv(a[1], wd, "c13grpc%d" % a[0], timeout=900, dirk=build_dirk()), enumerate(gchunks)))
+    ghit = 0
+    for evs_, rc_, err_ in gouts:
+        if rc_ != 0:
+            raise Inconclusive("faulty participant over gRPC: dkgdrv exited %s: %s" % (rc_, err_[-400:]))
+        gb = split_scenarios(evs_)
+        by.update(gb)
+        ghit += sum(1 for evs2 in gb.values() if any(e["ev"] == "Outcome" and e["faults_hit"] for e in evs2))
+    if ghit < len(gscs):
+        raise Inconclusive("faulty participant over gRPC: the fault was applied in only %d of %d generations" % (ghit, len(gscs)))
+    for sc_ in gscs:
+        meta[sc_["id"]] = sc_
+    scs = scs + gscs
     # a generation that never ended (no answer to the client within 40 s) is run again on its own before anything is concluded
     hung = [sc for sc in scs if any(e["ev"] == "Outcome" and e.get("hung") for e in by.get(sc["id"], []))]
     unreproduced = []
